@@ -6,9 +6,10 @@
 EXTENDS Bus, TLC, Json
 
 VARIABLES hist,    \* Seq of [op, n]
-          joinq    \* nodes whose Close() call has not returned yet (close requested explicitly)
+          joinq,   \* nodes whose Close() call has not returned yet (close requested explicitly)
+          held     \* the bus has received an event and not yet handed it to any subscriber
 
-gvars == <<vars, hist, joinq>>
+gvars == <<vars, hist, joinq, held>>
 
 Op(o, n) == [op |-> o, n |-> n]
 
@@ -21,19 +22,32 @@ AppendJoins(h, S) == IF S = {} THEN h
 
 GEnv ==
   \/ \E e \in Evs : Publish(e) /\ hist' = Append(hist, Op("pub", e)) /\ UNCHANGED joinq
-  \/ \E n \in Nodes : Subscribe(n) /\ hist' = Append(hist, Op("sub", n)) /\ UNCHANGED joinq
-  \/ \E s \in Subs : Live(s) /\ Emit(s) /\ hist' = Append(hist, Op("read", s)) /\ UNCHANGED joinq
+                     /\ held' = (RunningKids(Root) # {})
+  \/ \E n \in Nodes : Subscribe(n) /\ hist' = Append(hist, Op("sub", n)) /\ UNCHANGED <<joinq, held>>
+  \/ \E s \in Subs : Live(s) /\ Emit(s) /\ hist' = Append(hist, Op("read", s)) /\ UNCHANGED <<joinq, held>>
   \/ \E n \in Nodes : RequestClose(n) /\ hist' = Append(hist, Op("aclose", n)) /\ joinq' = joinq \cup {n}
+                       /\ UNCHANGED held
 
-GInt == /\ Internal
+(* the first hand-over of an event by the bus: the point up to which the harness holds the bus's *)
+(* loop at its "bus.fanout" gate, so that the API calls before it run while the event is in flight *)
+GRootFwd == /\ \E c \in Subs : Fwd(Root, c)
+            /\ hist' = IF held THEN Append(hist, Op("release", 0)) ELSE hist
+            /\ held' = FALSE
+            /\ UNCHANGED joinq
+
+GInt == /\ \/ \E n \in Subs, c \in Subs : Fwd(n, c)
+           \/ \E n \in Nodes : Stop(n)
+           \/ \E c \in Subs : Unsub(c)
+           \/ RootDone
         /\ hist' = AppendJoins(hist, Joins(joinq, st'))
         /\ joinq' = joinq \ Joins(joinq, st')
+        /\ UNCHANGED held
 
-GInit == Init /\ hist = <<>> /\ joinq = {}
-GNext == GEnv \/ GInt
+GInit == Init /\ hist = <<>> /\ joinq = {} /\ held = FALSE
+GNext == GEnv \/ GRootFwd \/ GInt
 GSpec == GInit /\ [][GNext]_gvars
 
-GView == vars
+GView == <<vars, held>>
 
 (* print the script that reached this state (always TRUE: used as an invariant) *)
 Export == PrintT(<<"SCRIPT", ToJson(hist)>>)
